@@ -214,6 +214,8 @@ func vC12Disc(r *vRand, c *vC12Cfg, rd []uint64, readsDest bool, fill int, bad s
 		add(4+r.Intn(2), append(vC12Subset(r, rd), vPick(r, unread)))
 	case "disc-name":
 		add(6, []uint64{c.Dest})
+	case "disc-empty":
+		add(r.Range(0, 5), nil) // a contract name with an empty address map
 	}
 	items := make([]string, len(ents))
 	for i, e := range ents {
@@ -234,6 +236,8 @@ func vC12Plugin(c *vC12Cfg, me int) *Plugin {
 var vC12ExecClasses = []string{
 	"none", "none", "none", "messages", "messages-empty", "commitreports", "nonces", "tokendata", "costly",
 	"disc-dest", "disc-own", "disc-name", "malformed", "unknown-chain",
+	// a chain KEY with an empty inner value: alone, and ("cross") together with data about the same chain in another field
+	"tokendata-empty", "nonces-empty", "disc-empty", "cross", "cross", "cross",
 }
 
 // options of the observation generator (zero value + fill = -1: everything drawn at random)
@@ -289,6 +293,28 @@ func vC12GenExecCase(t *testing.T, r *vRand, c *vC12Cfg, o int, opt vC12GenOpt) 
 		}
 		return opt.prefer // not read by the observer now (possibly no longer configured at all)
 	}
+	// a chain the observer does not read but the home chain configures (77 only if there is none)
+	pickUnreadCfg := func() uint64 {
+		var cand []uint64
+		for _, u := range unread {
+			if u != 77 {
+				cand = append(cand, u)
+			}
+		}
+		x := uint64(77)
+		if len(cand) > 0 {
+			x = vPick(r, cand)
+		}
+		if opt.prefer != 0 {
+			for _, u := range rd {
+				if u == opt.prefer {
+					return x
+				}
+			}
+			return opt.prefer
+		}
+		return x
+	}
 	sub := func(xs []uint64) []uint64 {
 		out := vC12Subset(r, xs)
 		if !opt.force {
@@ -318,6 +344,14 @@ func vC12GenExecCase(t *testing.T, r *vRand, c *vC12Cfg, o int, opt vC12GenOpt) 
 	want := func() bool { return fill == 2 || (fill == 1 && r.Bool()) }
 	malformed := bad == "malformed"
 	roots := vNewIntern()
+	// cross-field shape: chain crossX (not read by the observer) is a key with an EMPTY inner value in field crossEmpty and
+	// carries data in field crossData; fields: 0 Messages, 1 TokenData, 2 Nonces, 3 CommitReports
+	crossX, crossEmpty, crossData := uint64(0), -1, -1
+	if bad == "cross" {
+		crossX = pickUnreadCfg()
+		crossEmpty = r.Intn(4)
+		crossData = (crossEmpty + 1 + r.Intn(3)) % 4
+	}
 
 	obs := exectypes.Observation{}
 	// ---- commit reports (destination data, keyed by source chain)
@@ -332,6 +366,9 @@ func vC12GenExecCase(t *testing.T, r *vRand, c *vC12Cfg, o int, opt vC12GenOpt) 
 	if bad == "unknown-chain" && r.Chance(1, 3) {
 		crChains = vC12Dedup(append(crChains, 77)) // a chain without configured F
 	}
+	if crossEmpty == 3 || crossData == 3 {
+		crChains = vC12Dedup(append(crChains, crossX))
+	}
 	if len(crChains) > 0 {
 		obs.CommitReports = exectypes.CommitObservations{}
 	}
@@ -339,6 +376,12 @@ func vC12GenExecCase(t *testing.T, r *vRand, c *vC12Cfg, o int, opt vC12GenOpt) 
 	for _, ch := range crChains {
 		k := r.Range(0, 3)
 		if bad == "commitreports" && k == 0 && r.Bool() {
+			k = 1
+		}
+		if ch == crossX && crossEmpty == 3 {
+			k = 0
+		}
+		if ch == crossX && crossData == 3 && k == 0 {
 			k = 1
 		}
 		var lst []exectypes.CommitData
@@ -421,6 +464,21 @@ func vC12GenExecCase(t *testing.T, r *vRand, c *vC12Cfg, o int, opt vC12GenOpt) 
 		toks = append(toks, kc{pickUnread(), r.Range(1, 2)})
 	case "nonces":
 		nonces = append(nonces, kc{vPick(r, []uint64{5, 6}), r.Range(1, 2)})
+	case "tokendata-empty":
+		toks = append(toks, kc{pickUnread(), 0}) // empty inner map: not an observation about that chain
+	case "nonces-empty":
+		nonces = append(nonces, kc{vPick(r, []uint64{5, 6}), 0})
+	case "cross":
+		put := func(xs []kc, field int) []kc {
+			if crossEmpty == field {
+				return append(xs, kc{crossX, 0})
+			}
+			if crossData == field {
+				return append(xs, kc{crossX, r.Range(1, 2)})
+			}
+			return xs
+		}
+		msgs, toks, nonces = put(msgs, 0), put(toks, 1), put(nonces, 2)
 	case "unknown-chain":
 		// keys of chains without configured F, empty inner maps: rejected since F13d although no role is violated
 		switch r.Intn(3) {
